@@ -32,7 +32,7 @@ use world::*;
 type PoolSvc = ConnectionPoolService<SimTransport, SimProtocol, RecSvc, SimBody>;
 type BoxFut = Pin<Box<dyn Future<Output = Result<http::Response<SimBody>, ClientError>>>>;
 
-const ORIGINS: [&str; 12] = [
+const ORIGINS: [&str; 16] = [
     "http://a.test",
     "https://a.test",
     "http://a.test:8080",
@@ -47,6 +47,12 @@ const ORIGINS: [&str; 12] = [
     "ws://a.test:8002",
     "wss://a.test:9443",
     "wss://a.test",
+    // CONNECT targets in authority-form (no scheme: such a request names no origin at all), next
+    // to the origins a guessed scheme would make of them
+    "a.test:443",
+    "https://a.test:443",
+    "a.test:8081",
+    "http://a.test:8081",
 ];
 
 #[derive(Clone, Copy, Debug, Serialize, Deserialize, PartialEq, Eq)]
@@ -90,6 +96,9 @@ pub enum Step {
     ConnWake { conn_of: u32 },
     /// fault: the response future of this request's exchange panics at its next poll
     RespondPanic { req: u32 },
+    /// `n` requests to as many other origins are issued and dropped at once (a crawler, a proxy):
+    /// whatever the pool keeps per origin it has ever seen is put under load
+    Flood { n: u32 },
     Bg,
     Advance { ms: u64 },
     DropService,
@@ -119,6 +128,7 @@ impl Step {
             Step::Gate { .. } => 16,
             Step::ConnWake { .. } => 17,
             Step::RespondPanic { .. } => 18,
+            Step::Flood { .. } => 19,
         }
     }
 }
@@ -230,6 +240,7 @@ struct Weights {
     respond_upgrade: u32,
     respond_err: u32,
     respond_panic: u32,
+    flood: u32,
     conn_ready: u32,
     conn_close: u32,
     conn_wake: u32,
@@ -254,6 +265,7 @@ fn weights_for(profile: &str, r: &mut Rng, faulty: bool) -> Weights {
         respond_upgrade: 0,
         respond_err: 1,
         respond_panic: 0,
+        flood: 0,
         conn_ready: 12,
         conn_close: 3,
         conn_wake: 3,
@@ -307,6 +319,7 @@ fn weights_for(profile: &str, r: &mut Rng, faulty: bool) -> Weights {
             w.cancel = 5;
         }
         "C15" => {
+            w.flood = if r.chance(1, 6) { 2 } else { 0 };
             w.h2_pct = 0;
             w.issue = 20;
             w.conn_close = 4;
@@ -372,7 +385,8 @@ fn gen_cfg(profile: &str, r: &mut Rng) -> PoolCfg {
         "C04" | "C14" => None,
         // an idle timeout must not change what "retained" means: expired entries still count
         "C15" => *r.pick(&[None, None, Some(5), Some(50)]),
-        "C05" => *r.pick(&[None, Some(0), Some(5), Some(90_000), Some(5), Some(50)]),
+        "C05" => *r.pick(&[None, Some(0), Some(5), Some(90_000), Some(5), Some(50), Some(u64::MAX)]),
+        "C17" => *r.weighted(&[(4, None), (1, Some(0)), (1, Some(5)), (3, Some(90_000)), (2, Some(u64::MAX))]),
         _ => *r.weighted(&[(5, None), (1, Some(0)), (1, Some(5)), (3, Some(90_000))]),
     };
     let max_reqs = match profile {
@@ -490,6 +504,7 @@ struct Run<'a> {
     woken_before_step: Vec<bool>,
     /// futures that have completed and are kept alive (cfg.keep_finished)
     kept_futs: Vec<BoxFut>,
+    flooded: bool,
 }
 
 pub struct PoolSim {
@@ -624,6 +639,9 @@ impl<'a> Run<'a> {
         if wt.drop_service > 0 && self.svc.is_some() && issued >= 2 {
             v.push((wt.drop_service, Step::DropService));
         }
+        if wt.flood > 0 && !self.flooded && self.svc.is_some() && issued >= 1 {
+            v.push((wt.flood, Step::Flood { n: 1100 }));
+        }
         if self.case.cfg.gate_transport {
             v.push((if w.transport_gate_closed { 6 } else { 3 }, Step::Gate { transport: true, open: w.transport_gate_closed }));
         }
@@ -641,7 +659,7 @@ impl<'a> Run<'a> {
 
     fn draw_advance(&mut self) -> u64 {
         let mut cands: Vec<u64> = vec![1, 3, 10];
-        if let Some(t) = self.case.cfg.idle_timeout_ms {
+        if let Some(t) = self.case.cfg.idle_timeout_ms.filter(|t| *t < 1_000_000_000) {
             cands.extend([t.saturating_sub(1).max(1), t.max(1), t + 1, t * 10 + 1]);
         }
         if let Some(d) = self.case.cfg.timeout_ms {
@@ -654,7 +672,7 @@ impl<'a> Run<'a> {
     fn translate(&self, step: &Step) -> Option<Step> {
         let m = |l: &u32| self.lmap.get(l).copied();
         Some(match step {
-            Step::Issue { .. } | Step::Bg | Step::Advance { .. } | Step::DropService | Step::Gate { .. } => step.clone(),
+            Step::Issue { .. } | Step::Bg | Step::Advance { .. } | Step::DropService | Step::Gate { .. } | Step::Flood { .. } => step.clone(),
             Step::Poll { req } => Step::Poll { req: m(req)? },
             Step::Cancel { req } => Step::Cancel { req: m(req)? },
             Step::DialOk { req } => Step::DialOk { req: m(req)? },
@@ -867,6 +885,29 @@ impl<'a> Run<'a> {
                 }
                 true
             }
+            Step::Flood { n } => {
+                if self.svc.is_none() || self.flooded {
+                    return false;
+                }
+                self.flooded = true;
+                for i in 0..*n {
+                    let request = http::Request::builder().uri(format!("http://flood{}.test/", i)).body(SimBody::new()).expect("request");
+                    let svc = self.svc.as_mut().unwrap();
+                    let wk: Waker = Arc::new(FlagWaker { woken: AtomicBool::new(false), count: AtomicU32::new(0) }).into();
+                    let mut cx = Context::from_waker(&wk);
+                    let r = catch_unwind(AssertUnwindSafe(|| {
+                        if let Poll::Ready(Ok(())) = svc.poll_ready_any(&mut cx) {
+                            drop(svc.call_any(request));
+                        }
+                    }));
+                    if r.is_err() {
+                        self.note_panics(None, "flood");
+                        break;
+                    }
+                }
+                self.out.count("probe.flood_of_other_origins");
+                true
+            }
             Step::RespondPanic { req } => {
                 let mut w = self.w.lock();
                 let Some(e) = w.exchs.iter().position(|e| e.req == Some(*req) && e.state == AsyncState::Pending && !e.panic_next) else {
@@ -1003,8 +1044,10 @@ impl<'a> Run<'a> {
         if req as usize != self.reqs.len() || self.svc.is_none() || origin >= self.case.cfg.origins.len() {
             return false;
         }
-        let uri = format!("{}/r{}", self.case.cfg.origins[origin], req);
+        let authority_form = !self.case.cfg.origins[origin].contains("://");
+        let uri = if authority_form { self.case.cfg.origins[origin].clone() } else { format!("{}/r{}", self.case.cfg.origins[origin], req) };
         let mut request = http::Request::builder()
+            .method(if authority_form { http::Method::CONNECT } else { http::Method::GET })
             .uri(uri)
             .version(ver.http())
             .body(SimBody::new())
@@ -1709,6 +1752,22 @@ impl<'a> Run<'a> {
                     json!({"busy_at_release": busy}),
                     format!("open HTTP/1 connection {} to {} was destroyed by the pool after its request had finished (every response on it was delivered; still receiving the body at release: {})", c, o, busy),
                 );
+                // C14: the connection was released while a request of its origin was waiting - that
+                // request is not served by it, it goes on waiting for its own dial
+                let waiting: Vec<usize> = {
+                    let w = self.w.lock();
+                    (0..self.reqs.len())
+                        .filter(|j| self.reqs[*j].state == RState::Pending && self.reqs[*j].polls > 0 && w.req_origin[*j] == o && !w.handoffs.iter().any(|x| x.req == *j as u32))
+                        .collect()
+                };
+                if !waiting.is_empty() {
+                    self.viol(
+                        "C14",
+                        "released_connection_destroyed_under_waiter",
+                        json!({"busy_at_release": busy}),
+                        format!("open HTTP/1 connection {} to {} was released while request(s) {:?} were waiting for a connection to that origin, and the pool destroyed it instead of handing it over", c, o, waiting),
+                    );
+                }
             }
         }
 
@@ -2033,7 +2092,8 @@ impl<'a> Run<'a> {
             return;
         }
         let used: Vec<usize> = {
-            let mut u: Vec<usize> = self.reqs.iter().map(|r| r.origin).collect();
+            // (a scheme-less CONNECT target names no origin: such a request is refused, probe or not)
+            let mut u: Vec<usize> = self.reqs.iter().map(|r| r.origin).filter(|o| self.case.cfg.origins[*o].contains("://")).collect();
             u.sort();
             u.dedup();
             u
@@ -2185,7 +2245,8 @@ impl PoolSim {
         hyperdriver::verif_hooks::set_pool_lock_contended(case.cfg.pool_lock_contended);
         let w: W = Arc::new(Mutex::new(World::default()));
         let mut pc = PoolConfig::default();
-        pc.idle_timeout = case.cfg.idle_timeout_ms.map(Duration::from_millis);
+        // (u64::MAX stands for Duration::MAX, the "never expire" idiom: it cannot be subtracted from an Instant)
+        pc.idle_timeout = case.cfg.idle_timeout_ms.map(|ms| if ms == u64::MAX { Duration::MAX } else { Duration::from_millis(ms) });
         pc.max_idle_per_host = case.cfg.max_idle;
         pc.continue_after_preemption = case.cfg.continue_after_preemption;
         let build = || -> PoolSvc {
@@ -2250,6 +2311,7 @@ impl PoolSim {
                 dirty_since_cancel: vec![false; case.cfg.origins.len()],
                 woken_before_step: vec![],
                 kept_futs: vec![],
+                flooded: false,
             };
             match &case.steps {
                 Some(steps) => {
